@@ -11,6 +11,8 @@
 #include "event.h"
 #include "connection.h"
 #include "stream.h"
+#include "notify.h"
+#include "array.h"
 #include <sys/socket.h>
 #include <fcntl.h>
 #include <poll.h>
@@ -23,6 +25,7 @@ static int codec_code(const char *n, int *zpe)
 {
 	*zpe = 0;
 	if (!strcmp(n, "raw")) return 0;
+	if (!strcmp(n, "command")) return MPT_ENUM(EncodingCommand);
 	if (!strcmp(n, "cobs")) return MPT_ENUM(EncodingCobs);
 	if (!strcmp(n, "cobs/r")) return MPT_ENUM(EncodingCobsInline);
 	if (!strcmp(n, "cobs/zpe")) { *zpe = 1; return MPT_ENUM(EncodingCobs) | MPT_ENUM(EncodingCompress); }
@@ -222,12 +225,20 @@ static MPT_STRUCT(stream) tx = MPT_STREAM_INIT, rx = MPT_STREAM_INIT;
 static int st_ready, st_h1 = -1, st_h2 = -1;   /* harness ends: peer of the sender, peer of the receiver */
 static size_t st_sent, st_got, st_moved;
 static int st_first;
+/* receiver variants: 0 mpt_stream_dispatch on a plain stream, 1 the input object of mpt_stream_input
+ * (its own dispatch), 2 mpt_stream_sync with a table of waiting commands */
+static int st_mode, st_rfd = -1;
+static MPT_INTERFACE(input) *st_in;
+#define ST_NCMD 9
+static struct { MPT_STRUCT(buffer) hdr; MPT_STRUCT(command) cmd[ST_NCMD]; } st_tab;
+static MPT_STRUCT(array) st_wait;
 
 static void st_close(void)
 {
 	if (!st_ready) return;
 	mpt_stream_close(&tx);
-	mpt_stream_close(&rx);
+	if (st_in) { st_in->_vptr->meta.unref((void *) st_in); st_in = 0; }
+	else mpt_stream_close(&rx);
 	if (st_h1 >= 0) close(st_h1);
 	if (st_h2 >= 0) close(st_h2);
 	st_h1 = st_h2 = -1;
@@ -247,16 +258,38 @@ static int st_cb(void *arg, const MPT_STRUCT(message) *m)
 	++st_got;
 	return 0;
 }
+static int st_ev(void *arg, MPT_STRUCT(event) *ev)
+{
+	(void) arg;
+	if (ev && ev->msg) st_cb(0, ev->msg);
+	return 0;
+}
+/* a waiting command: logs "<slot>:<payload>" (slot 0 is the fallback) */
+static int st_reply(void *arg, void *ptr)
+{
+	const MPT_STRUCT(message) *m = ptr;
+	if (!st_first) fputc(',', stdout);
+	st_first = 1;
+	printf("%d:", (int) (intptr_t) arg);
+	if (m) st_cb(0, m); else { fputs("null", stdout); st_first = 0; }
+	return 0;
+}
 static void st_cmd(void)
 {
 	const char *op = drv_w[1];
 	uint8_t *dat = 0; size_t dlen = 0, a; int isnull = 0;
 	char buf[32];
-	if (!strcmp(op, "new") && drv_nw == 3) {
-		int zpe, code = codec_code(drv_w[2], &zpe), p1[2], p2[2];
+	if (!strcmp(op, "new") && (drv_nw == 3 || drv_nw == 4)) {
+		int zpe, code = codec_code(drv_w[2], &zpe), p1[2], p2[2], mode = 0;
 		MPT_STRUCT(socket) sock;
 		if (code <= 0) { puts("bad-op"); return; }
+		if (drv_nw == 4) {
+			if (!strcmp(drv_w[3], "input")) mode = 1;
+			else if (!strcmp(drv_w[3], "wait")) mode = 2;
+			else { puts("bad-op"); return; }
+		}
 		st_close();
+		st_mode = mode;
 		if (socketpair(AF_UNIX, SOCK_STREAM, 0, p1) < 0 || socketpair(AF_UNIX, SOCK_STREAM, 0, p2) < 0) { puts("R nosocket | C - | I -"); return; }
 		st_h1 = p1[1]; st_h2 = p2[0];
 		fcntl(st_h1, F_SETFL, fcntl(st_h1, F_GETFL) | O_NONBLOCK);
@@ -266,8 +299,23 @@ static void st_cmd(void)
 		rx._rd._dec = mpt_message_decoder(code);
 		sock._id = p1[0];
 		int r1 = mpt_stream_dopen(&tx, &sock, MPT_STREAMFLAG(Write) | MPT_STREAMFLAG(WriteBuf));
-		sock._id = p2[1];
-		int r2 = mpt_stream_dopen(&rx, &sock, MPT_STREAMFLAG(Read) | MPT_STREAMFLAG(ReadBuf));
+		sock._id = st_rfd = p2[1];
+		int r2 = 0;
+		if (mode == 1) {
+			if (!(st_in = mpt_stream_input(&sock, MPT_STREAMFLAG(Read) | MPT_STREAMFLAG(ReadBuf), code, 0))) r2 = -1;
+		}
+		else r2 = mpt_stream_dopen(&rx, &sock, MPT_STREAMFLAG(Read) | MPT_STREAMFLAG(ReadBuf));
+		if (mode == 2) {
+			int i;
+			memset(&st_tab, 0, sizeof(st_tab));
+			for (i = 0; i < ST_NCMD; ++i) {
+				st_tab.cmd[i].id = i;
+				st_tab.cmd[i].cmd = st_reply;
+				st_tab.cmd[i].arg = (void *) (intptr_t) i;
+			}
+			st_tab.hdr._used = sizeof(st_tab.cmd);
+			st_wait._buf = &st_tab.hdr;
+		}
 		st_ready = 1; st_sent = st_got = st_moved = 0;
 		printf("R %s | C - | I -\n", (r1 < 0 || r2 < 0) ? "failed" : "ok");
 	}
@@ -307,9 +355,17 @@ static void st_cmd(void)
 		/* read until the socket is drained (the queue gets more storage whenever it is full) */
 		int r, n = 0;
 		struct pollfd pf;
-		do {
+		pf.fd = st_rfd; pf.events = POLLIN;
+		if (st_mode == 1) {
+			/* the input's `next` reads without waiting for the descriptor: ask only when data is there */
+			r = 0;
+			while (r >= 0 && ++n < 100000 && (pf.revents = 0, poll(&pf, 1, 0)) > 0 && (pf.revents & POLLIN)) {
+				r = st_in->_vptr->next(st_in, POLLIN);
+			}
+		}
+		else do {
 			r = mpt_stream_poll(&rx, POLLIN, 0);
-			pf.fd = _mpt_stream_fread(&rx._info); pf.events = POLLIN; pf.revents = 0;
+			pf.revents = 0;
 		} while (r >= 0 && ++n < 100000 && poll(&pf, 1, 0) > 0 && (pf.revents & POLLIN));
 		printf("R ok | C - | I -\n");
 	}
@@ -319,9 +375,17 @@ static void st_cmd(void)
 		size_t start = st_got;
 		printf("R msgs=");
 		st_first = 1;
-		do {
+		if (st_mode == 2) {
+			/* wait for replies: as long as a call handles something */
+			do {
+				size_t before = st_got;
+				r = mpt_stream_sync(&rx, 1, &st_wait, 0);
+				if (st_got == before) break;
+			} while (++n < 4096);
+		}
+		else do {
 			size_t before = st_got;
-			r = mpt_stream_dispatch(&rx, st_cb, 0);
+			r = st_mode ? st_in->_vptr->dispatch(st_in, st_ev, 0) : mpt_stream_dispatch(&rx, st_cb, 0);
 			if (st_got == before) break;
 		} while (r >= 0 && (r & MPT_EVENTFLAG(Retry)) && ++n < 4096);
 		if (st_first) fputc('-', stdout);
